@@ -142,8 +142,10 @@ def snapshot(config):
 class Scratch(object):
     """Scratch directory with a content-addressed file cache."""
 
+    ROOT = None         # set by run() in the parent before forking: removed there even if a worker is killed
+
     def __init__(self):
-        base = '/dev/shm' if os.path.isdir('/dev/shm') and os.access('/dev/shm', os.W_OK) else None
+        base = Scratch.ROOT or ('/dev/shm' if os.path.isdir('/dev/shm') and os.access('/dev/shm', os.W_OK) else None)
         self.dir = tempfile.mkdtemp(prefix='vp-c16-', dir=base)
         self.cache = {}
 
@@ -902,7 +904,7 @@ def gen_dictws(block, tier):
 
 # -- family 'api': the rest of the public configuration API ----------------------------------------------------
 API_CASES = ['get', 'duplicate_section', 'duplicate_option', 'new_option', 'missing_reference', 'load_config_files',
-             'plastex_entry', 'read_string_and_list']
+             'plastex_entry', 'read_string_and_list', 'partial_dict', 'plastex_interrupt']
 
 
 def gen_api(block, tier):
@@ -997,6 +999,32 @@ def judge_api(case):
                 exp = ['doc.tex', ['str', 'zz'], ['int', 7]]
                 obs = [cap[0][0], M.enc(cap[0][1]['general']['theme']), M.enc(cap[0][1]['files']['split-level'])] \
                     if len(cap) == 1 else 'run called %d times' % len(cap)
+            elif what == 'partial_dict':
+                # updateFromDict with a dict that lacks most destinations: only the named options change
+                config = defaultConfig()
+                cl.collect_renderer_config(config)
+                config.updateFromDict({'theme': 'zz', 'split-level': 0, 'xml': True})
+                m = M.Model(False)
+                m.state[('general', 'theme')] = 'zz'
+                m.state[('files', 'split-level')] = 0
+                m.state[('general', 'xml')] = True
+                exp, obs = m.snapshot(), snapshot(config)
+                if exp != obs:
+                    exp, obs = _diff(exp, obs)
+            elif what == 'plastex_interrupt':
+                orig_run, orig_argv = cl.run, sys.argv
+
+                def interrupted(filename, config):
+                    raise KeyboardInterrupt()
+                cl.run = interrupted
+                sys.argv = ['plastex', 'doc.tex']
+                try:
+                    obs = ['returned', M.enc(cl.plastex())]
+                except KeyboardInterrupt:
+                    obs = 'KeyboardInterrupt propagated'
+                finally:
+                    cl.run, sys.argv = orig_run, orig_argv
+                exp = ['returned', ['NoneType', 'None']]
             elif what == 'read_string_and_list':
                 f1 = scratch.path_for('[files]\nsplit-level = 7\n[general]\nplugins = a\n')
                 f2 = scratch.path_for('[files]\nsplit-level = 8\n[general]\nplugins = b\n')
@@ -1141,8 +1169,14 @@ def run(tier, seed, rep):
     # the small families first, so that the example kept for a deviation is a short one
     small = [b for b in blocks if b[0] in ('doc', 'shapes')]
     rest = [b for b in blocks if b[0] not in ('doc', 'shapes')]
-    core.merge_all(run_block, core.rotate(small, seed), rep)
-    core.merge_all(run_block, core.rotate(rest, seed), rep)
+    root = Scratch()
+    Scratch.ROOT = root.dir
+    try:
+        core.merge_all(run_block, core.rotate(small, seed), rep)
+        core.merge_all(run_block, core.rotate(rest, seed), rep)
+    finally:
+        Scratch.ROOT = None
+        root.close()
     bounds = {
         'options': nreal, 'synthetic_options': nall - nreal, 'max_config_files': 3,
         'single_sources': 4, 'bool_file_spellings': len(file_menu(M.SCHEMA[3], tier, False)),
